@@ -4,7 +4,7 @@
   Property theorems only (helper lemmas: FsProofs/Lemmas/GlobLemmas.lean).  The model is
   FsModel/Regex.lean (the regex subset the library generates, with Python's meaning),
   FsModel/Wild.lean and FsModel/Glob.lean (fs/wildcard.py, fs/glob.py, fs/lrucache.py as
-  written; `WildSpec` / `GlobSpec` = the documented semantics written directly).
+  written at /repo 8d610d8; `WildSpec` / `GlobSpec` = the documented semantics written directly).
 
   All statements quantify over every pattern / name / path (`Str = List Char`), no length bound.
 -/
@@ -47,111 +47,126 @@ example : Wild.wmatch "[!a-c]*.P?".toList "d.x.py".toList false = .ok true := by
 
 The full statement
 
-    theorem glob_correct (pat : Str) (path : List Str) (isDir cs : Bool) (c : Glob.Compiled)
+    theorem glob_correct_full (pat : Str) (path : List Str) (isDir cs : Bool) (c : Glob.Compiled)
         (h : Glob.translateGlob pat cs = .ok c) :
         c.re.matches (render path isDir) = GlobSpec.matches pat path isDir cs
 
-is FALSE of the code as written: the six theorems below are `decide`d witnesses (each replayed on
-the real `fs.glob.match` by harness/props/c14.py, each a finding under findings/C14-*.md), and
-`glob_correct_partial` proves the statement outside exactly these classes. -/
+is still FALSE of the code as repaired (8d610d8), for one remaining reason inside the documented
+language — `two_level_matches_one_level_dir` below — and for patterns whose meaning the
+documentation leaves open (`.`/`..` components, a `**` glued to other text).  `glob_correct` proves
+it everywhere else.  Four earlier deviation classes (newline, `**` after another component,
+bracket expressions vs `/`, directories vs slash-less patterns) were repaired in /repo; their
+former witnesses are kept as `_repaired` regression theorems. -/
 
-/-- `glob("*")` never yields a directory: directories are matched with a trailing `/`. -/
-theorem star_omits_directories :
-    (Glob.translateGlob "*".toList).map (·.re.matches (render ["d".toList] true)) = .ok false ∧
-      GlobSpec.matches "*".toList ["d".toList] true = true := by decide
+/-- **Correctness.**  For every pattern that is `Regular` — no `.`/`..` component, every `**` a whole
+component (anywhere in the pattern) —, every resource whose names a filesystem can hold (non-empty,
+no `/`; newlines, brackets, anything else allowed), files and directories, both case modes: the
+compiled regex accepts the rendered path exactly when the documented semantics says the resource
+matches — except for a *directory* against a pattern without trailing `/` whose last non-`**`
+component consists of `*` only (`emptyTail`; the open finding below). -/
+theorem glob_correct (pat : Str) (path : List Str) (isDir cs : Bool)
+    (hreg : Regular pat = true) (hpath : ∀ n ∈ path, FsName n)
+    (hdir : isDir = true → endsWithSlash pat = false → emptyTail (pcomps pat) = false)
+    (c : Glob.Compiled) (hc : Glob.translateGlob pat cs = .ok c) :
+    c.re.matches (render path isDir) = GlobSpec.matches pat path isDir cs :=
+  glob_core pat path isDir cs hreg hpath hdir c hc
 
-/-- `*/*` matches the one-level directory `/d/`. -/
+/-- for files the last hypothesis is void: on files the statement holds for every Regular pattern -/
+theorem glob_correct_files (pat : Str) (path : List Str) (cs : Bool)
+    (hreg : Regular pat = true) (hpath : ∀ n ∈ path, FsName n)
+    (c : Glob.Compiled) (hc : Glob.translateGlob pat cs = .ok c) :
+    c.re.matches (render path false) = GlobSpec.matches pat path false cs :=
+  glob_core pat path false cs hreg hpath (fun h => by cases h) c hc
+
+/-- the hypotheses are satisfiable, non-trivially -/
+example : Regular "a/**/[!]x]*.p?/**".toList = true := by decide
+example : emptyTail (pcomps "**/*.py".toList) = false := by decide
+example : (Glob.translateGlob "a/**/[!]x]*.p?".toList).map
+    (·.re.matches (render ["a".toList, "q\n".toList, "b.py".toList] true)) = .ok true := by decide
+example : FsName "b\n.py".toList := ⟨by decide, by decide⟩
+
+/-! ### what remains open -/
+
+/-- OPEN: `*/*` matches the one-level directory `/d/` (the `/` appended to a directory is taken
+for the separator in front of an *empty* last name). findings/C14-empty-component-matches-dir-slash.md -/
 theorem two_level_matches_one_level_dir :
     (Glob.translateGlob "*/*".toList).map (·.re.matches (render ["d".toList] true)) = .ok true ∧
       GlobSpec.matches "*/*".toList ["d".toList] true = false := by decide
 
-/-- under `(?ms)` the final `$` also matches before a newline: `match("a", "a\nb")`. -/
-theorem dollar_matches_before_newline :
-    (Glob.translateGlob "a".toList).map (·.re.matches (render ["a\nb".toList] false)) = .ok true ∧
-      GlobSpec.matches "a".toList ["a\nb".toList] false = false := by decide
-
-/-- a `**` after another component absorbs part of a name: `a/**/b` matches `/ax/b`. -/
-theorem starstar_partial_component :
-    (Glob.translateGlob "a/**/b".toList).map (·.re.matches (render ["ax".toList, "b".toList] false)) = .ok true ∧
-      GlobSpec.matches "a/**/b".toList ["ax".toList, "b".toList] false = false := by decide
-
-/-- `[!` is rewritten to `[^/`: `[!-a]` becomes the *range* `/`–`a` (and `[!]a]` leaves the
-structured subset altogether: the set is closed early, the rest is raw regex text). -/
-theorem negated_class_dash_becomes_range :
-    (Glob.translateGlob "[!-a]".toList).map (·.re.matches (render ["B".toList] false)) = .ok false ∧
-      GlobSpec.matches "[!-a]".toList ["B".toList] false = true := by decide
-
-theorem negated_class_loses_bracket :
-    (Glob.translateGlob "[!]a]".toList).map (·.levels) = .err .outside ∧
-      (Glob.compile "[!]a]".toList).map (·.re.matches (render ["b".toList] false)) = .ok false ∧
-      GlobSpec.matches "[!]a]".toList ["b".toList] false = true := by decide
-
-/-- a positive bracket expression whose range contains `/` matches the separator -/
-theorem class_range_crosses_separator :
-    (Glob.translateGlob "a[+-9]b".toList).map (·.re.matches "/a/b".toList) = .ok true ∧
-      GlobSpec.matches "a[+-9]b".toList ["a".toList, "b".toList] false = false := by decide
-
-/-- a reversed range makes `match` raise `re.error` -/
-theorem reversed_range_raises : Glob.gmatch "[b-a]".toList "x".toList = .err .reError := by decide
-
-/-- the negation of the full statement -/
-theorem glob_correct_counterexample :
+/-- the negation of the full statement (a Regular pattern, an ordinary directory) -/
+theorem glob_correct_full_counterexample :
     ¬ ∀ (pat : Str) (path : List Str) (isDir cs : Bool) (c : Glob.Compiled),
-        Glob.translateGlob pat cs = .ok c →
+        Regular pat = true → (∀ n ∈ path, FsName n) → Glob.translateGlob pat cs = .ok c →
         c.re.matches (render path isDir) = GlobSpec.matches pat path isDir cs := by
   intro h
-  obtain ⟨h1, h2⟩ := star_omits_directories
-  cases hc : Glob.translateGlob "*".toList true with
+  obtain ⟨h1, h2⟩ := two_level_matches_one_level_dir
+  cases hc : Glob.translateGlob "*/*".toList true with
   | err e => rw [hc] at h1; cases h1
   | ok c =>
     rw [hc] at h1
     simp only [TR.map, TR.ok.injEq] at h1
-    have := h "*".toList ["d".toList] true true c hc
+    have := h "*/*".toList ["d".toList] true true c (by decide)
+      (by intro n hn; simp at hn; subst hn; exact ⟨by decide, by decide⟩) hc
     rw [h1, h2] at this
     cases this
 
-/-- **Partial correctness.**  For every pattern that is `Regular` — no `.`/`..` component, every
-`**` a whole component standing before all others, bracket expressions `goodTok` —, every
-resource whose names are non-empty and contain neither `/` nor a newline, and a directory only
-when the pattern ends in `/`: the compiled regex accepts the rendered path exactly when the
-documented semantics says the resource matches (both case modes).  Each hypothesis excludes one
-class of deviation witnessed above. -/
-theorem glob_correct_partial (pat : Str) (path : List Str) (isDir cs : Bool)
-    (hreg : Regular pat = true) (hpath : ∀ n ∈ path, GoodName n)
-    (hdir : isDir = true → endsWithSlash pat = true)
-    (c : Glob.Compiled) (hc : Glob.translateGlob pat cs = .ok c) :
-    c.re.matches (render path isDir) = GlobSpec.matches pat path isDir cs :=
-  glob_partial_core pat path isDir cs hreg hpath hdir c hc
+/-- OPEN: a reversed range makes `match` raise `re.error`. findings/C14-reversed-range-re-error.md -/
+theorem reversed_range_raises : Glob.gmatch "[b-a]".toList "x".toList = .err .reError := by decide
 
-/-- the hypotheses are satisfiable, non-trivially -/
-example : Regular "**/[!x]*.p?/".toList = true := by decide
-example : (Glob.translateGlob "**/[!x]*.p?/".toList).map
-    (·.re.matches (render ["a".toList, "b.py".toList] true)) = .ok true := by decide
-example : GoodName "b.py".toList := by
-  refine ⟨by decide, by decide, by decide⟩
+/-! ### regression theorems for the repaired classes (former counterexamples) -/
 
-/-- **Depth pruning never loses a match** (for newline-free names and patterns without a
-positive bracket range that contains `/`): when `_translate_glob` returns `levels = k`, every
-resource the regex accepts lies at depth ≤ k — so `Globber` may pass `max_depth = k`. -/
+/-- 8d610d8: `glob("*")` yields directories (a pattern without trailing `/` accepts `<path>/`). -/
+theorem star_matches_directories_repaired :
+    (Glob.translateGlob "*".toList).map (·.re.matches (render ["d".toList] true)) = .ok true ∧
+      GlobSpec.matches "*".toList ["d".toList] true = true := by decide
+
+/-- 2f2ca27: the regex ends in `\Z` without MULTILINE: `match("a", "a\nb")` is False. -/
+theorem dollar_newline_repaired :
+    (Glob.translateGlob "a".toList).map (·.re.matches (render ["a\nb".toList] false)) = .ok false ∧
+      GlobSpec.matches "a".toList ["a\nb".toList] false = false := by decide
+
+/-- 81a3019: `**` absorbs whole levels only: `a/**/b` does not match `/ax/b`, does match `/a/x/y/b`. -/
+theorem starstar_whole_levels_repaired :
+    (Glob.translateGlob "a/**/b".toList).map (·.re.matches (render ["ax".toList, "b".toList] false)) = .ok false ∧
+      (Glob.translateGlob "a/**/b".toList).map
+        (·.re.matches (render ["a".toList, "x".toList, "y".toList, "b".toList] false)) = .ok true ∧
+      (Glob.translateGlob "a/**/b".toList).map (·.re.matches (render ["a".toList, "b".toList] false)) = .ok true := by
+  decide
+
+/-- 810a9af: `[!…]` keeps its fnmatch meaning (`]` / `-` first are members), no text is injected. -/
+theorem negated_class_repaired :
+    (Glob.translateGlob "[!-a]".toList).map (·.re.matches (render ["B".toList] false)) = .ok true ∧
+      (Glob.translateGlob "[!]a]".toList).map (·.re.matches (render ["b".toList] false)) = .ok true ∧
+      (Glob.translateGlob "[!]a]".toList).map (·.re.matches (render ["]".toList] false)) = .ok false ∧
+      (Glob.translateGlob "a[!]|.*|]".toList).map
+        (·.re.matches (render ["anything".toList, "at".toList, "all".toList] false)) = .ok false := by decide
+
+/-- 810a9af: a bracket range that contains `/` no longer matches the separator. -/
+theorem class_range_separator_repaired :
+    (Glob.translateGlob "a[+-9]b".toList).map (·.re.matches "/a/b".toList) = .ok false ∧
+      (Glob.translateGlob "a[+-9]b".toList).map (·.re.matches "/a5b".toList) = .ok true := by decide
+
+/-! ### depth pruning -/
+
+/-- **Depth pruning never loses a match**: when `_translate_glob` returns `levels = k`, every
+resource the regex accepts lies at depth ≤ k — so `Globber` may pass `max_depth = k`.  No condition
+on the pattern; the names only have to be names (non-empty, no `/`). -/
 theorem levels_sound (pat : Str) (path : List Str) (isDir cs : Bool)
-    (hranges : noSlashRanges pat = true) (hpath : ∀ n ∈ path, GoodName n)
+    (hpath : ∀ n ∈ path, FsName n)
     (c : Glob.Compiled) (hc : Glob.translateGlob pat cs = .ok c) (k : Nat) (hk : c.levels = some k)
     (hm : c.re.matches (render path isDir) = true) : depth path ≤ k :=
-  levels_core pat path isDir cs hranges hpath c hc k hk hm
+  levels_core pat path isDir cs hpath c hc k hk hm
 
-example : noSlashRanges "a/[!b-d]*/?".toList = true := by decide
 example : (Glob.translateGlob "a/*".toList).map (·.levels) = .ok (some 2) := by decide
 
-/-- without the two hypotheses pruning does lose matches (findings multiline-dollar and
-class-range-spans-slash): the resource `/a\n/b` (depth 2) is accepted by the pattern `a`
-(`levels = 1`), and so is `/a/b` by `a[+-9]b`. -/
-theorem levels_unsound_newline :
+/-- the two former counterexamples of `levels_sound` (newline, range containing `/`) -/
+theorem levels_newline_repaired :
     (Glob.translateGlob "a".toList).map (fun c => (c.levels, c.re.matches (render ["a\n".toList, "b".toList] false)))
-      = .ok (some 1, true) := by decide
+      = .ok (some 1, false) := by decide
 
-theorem levels_unsound_slash_range :
+theorem levels_slash_range_repaired :
     (Glob.translateGlob "a[+-9]b".toList).map (fun c => (c.levels, c.re.matches (render ["a".toList, "b".toList] false)))
-      = .ok (some 1, true) := by decide
+      = .ok (some 1, false) := by decide
 
 /-! ## the printer: the structured translation *is* the text the code builds
 
@@ -169,7 +184,7 @@ theorem glob_regex_text (pat : Str) (cs : Bool) (c : Glob.Compiled)
   glob_print pat cs c h
 
 example : (Glob.translateGlob "a/**/[!x]*.py".toList).map (fun c => String.ofList c.re.toPy)
-    = .ok "(?ms)^/a/?.*/?/[^/x][^/]*\\.py$" := by decide
+    = .ok "(?s)^/a(?:/[^/]+)*/(?!/)[^x][^/]*\\.py/?\\Z" := by decide
 
 /-! ## the compiled-pattern cache (fs/lrucache.py, `_PATTERN_CACHE`) -/
 
